@@ -151,6 +151,7 @@ class Interp:
         self.unresolved: list[tuple] = []           # (qualname, line, text)
         self.intrinsics = {}
         self.builtin_hooks = {}
+        self.closures = {}
 
     # -- heap ---------------------------------------------------------------------------
     def alloc(self, obj) -> tuple:
@@ -261,7 +262,8 @@ class Interp:
                 return ("func", m.qualname)
             ca = cls.find_class_attr(name)
             if ca is not None:
-                return ("classattr", ca[0].qualname, name)
+                v = self._eval_class_attr(ca[0], name, ca[1])
+                return v if v is not None else ("classattr", ca[0].qualname, name)
             return ("attr", base, name)
         if base[0] == "module":
             r = None
@@ -293,8 +295,68 @@ class Interp:
                 return ("bound", base, m.qualname)
             ca = cls.find_class_attr(name)
             if ca is not None and name not in self._instance_written(cls):
-                return ("classattr", ca[0].qualname, name)
+                v = self._eval_class_attr(ca[0], name, ca[1])
+                if v is not None and v[0] == "propobj":
+                    return self.apply(st, v[1], [base], {}, node, tree)
+                return v if v is not None else ("classattr", ca[0].qualname, name)
         return ("attr", base, name)
+
+    def _eval_class_attr(self, cls: ClassInfo, name: str, node: ast.expr):
+        """Value of a class-level attribute when it is a plain table (constants, tuples/lists/dicts of constants and of
+        functions defined in the class or module, staticmethod(f)); None for anything else (compiled patterns ...)."""
+        cache = getattr(self, "_ca_cache", None)
+        if cache is None:
+            cache = self._ca_cache = {}
+        key = (cls.qualname, name)
+        if key in cache:
+            return cache[key]
+        cache[key] = None
+
+        def ev(n):
+            if isinstance(n, ast.Constant):
+                return const(n.value)
+            if isinstance(n, ast.Name):
+                if n.id in cls.methods:
+                    return ("func", cls.methods[n.id].qualname)
+                r = self.facts.resolve_name(cls.module, n.id)
+                if r is not None and r[0] in ("func", "class"):
+                    return self._resolved(r, n.id)
+                if r is not None and r[0] == "global":
+                    return self._resolved(r, n.id)
+                raise ValueError
+            if isinstance(n, ast.Tuple):
+                return ("tuple", tuple(ev(e) for e in n.elts))
+            if isinstance(n, ast.List):
+                return self.alloc(HList([("e", ev(e)) for e in n.elts], (cls.qualname, n.lineno, 0)))
+            if isinstance(n, ast.Dict) and all(k is not None for k in n.keys):
+                return self.alloc(HDict([(ev(k), ev(v)) for k, v in zip(n.keys, n.values)], (cls.qualname, n.lineno, 0)))
+            if isinstance(n, ast.Call) and isinstance(n.func, ast.Name) and n.func.id in ("staticmethod", "classmethod") and len(n.args) == 1:
+                return ev(n.args[0])
+            if isinstance(n, ast.Call) and isinstance(n.func, ast.Name) and n.func.id == "property" and len(n.args) >= 1:
+                return ("propobj", ev(n.args[0]))
+            if isinstance(n, ast.Call) and isinstance(n.func, ast.Name) and not n.keywords:
+                r = self.facts.resolve_name(cls.module, n.func.id)
+                if r is not None and r[0] == "func" and len(self.stack) < 6:
+                    a = [ev(x) for x in n.args]
+                    dummy = FuncInfo(cls.module, None, ast.parse("def _class_body(): pass").body[0])
+                    self.stack.append(Activation(dummy, len(self.stack)))
+                    try:
+                        v = self.call_function(State(), r[1], a, {}, n, [])
+                    finally:
+                        self.stack.pop()
+                    if v[0] in ("propobj", "closure", "func", "const", "tuple"):
+                        return v
+                raise ValueError
+            if isinstance(n, ast.Attribute):
+                b = ev(n.value)
+                raise ValueError
+            raise ValueError
+        try:
+            v = ev(node)
+        except (ValueError, RecursionError):
+            v = None
+        cache[key] = v
+        return v
 
     def _instance_written(self, cls: ClassInfo) -> set:
         cache = getattr(self, "_iw_cache", None)
@@ -320,12 +382,51 @@ class Interp:
             v = r[1].globals.get(r[2])
             if isinstance(v, ast.Constant) and isinstance(v.value, (str, int, float, bool, type(None))):
                 return const(v.value)
+            if isinstance(v, (ast.Tuple, ast.Dict, ast.List)) and r[2] != "RULE_TYPE":
+                t = self._eval_module_table(r[1], r[2], v)
+                if t is not None:
+                    return t
             return ("global", r[1].name, r[2])
         if r[0] == "module":
             return ("module", r[1])
         if r[0] == "external":
             return ("extname", f"{r[1]}.{r[2]}")
         return ("opaque", name)
+
+    def _eval_module_table(self, mod: ModInfo, name: str, node: ast.expr):
+        cache = getattr(self, "_mt_cache", None)
+        if cache is None:
+            cache = self._mt_cache = {}
+        key = (mod.name, name)
+        if key in cache:
+            return cache[key]
+        cache[key] = None
+
+        def ev(n):
+            if isinstance(n, ast.Constant):
+                return const(n.value)
+            if isinstance(n, ast.Name):
+                r = self.facts.resolve_name(mod, n.id)
+                if r is not None and r[0] in ("func", "class"):
+                    return self._resolved(r, n.id)
+                if r is not None and r[0] == "global":
+                    vv = r[1].globals.get(r[2])
+                    if isinstance(vv, ast.Constant):
+                        return const(vv.value)
+                raise ValueError
+            if isinstance(n, ast.Tuple):
+                return ("tuple", tuple(ev(e) for e in n.elts))
+            if isinstance(n, ast.List):
+                return self.alloc(HList([("e", ev(e)) for e in n.elts], (mod.name, n.lineno, 0)))
+            if isinstance(n, ast.Dict) and all(k is not None for k in n.keys):
+                return self.alloc(HDict([(ev(k), ev(v)) for k, v in zip(n.keys, n.values)], (mod.name, n.lineno, 0)))
+            raise ValueError
+        try:
+            v = ev(node)
+        except (ValueError, RecursionError):
+            v = None
+        cache[key] = v
+        return v
 
     def lookup_name(self, st: State, name: str, node=None):
         if name in st.env:
@@ -438,7 +539,18 @@ class Interp:
                         return const(bool(r))
                 except TypeError:
                     pass
-            nn = ("ref", "tuple", "drawn", "fstr", "bound", "func", "class", "lambda")
+            if p[1] in ("Is", "IsNot") and is_const(p[3], None) and p[2][0] == "cond":
+                def isnone(t):
+                    if t[0] == "cond":
+                        return mk_cond(t[1], isnone(t[2]), isnone(t[3]))
+                    if is_const(t):
+                        return const(t[1] is None)
+                    if t[0] in ("ref", "tuple", "drawn", "fstr", "bound", "func", "class", "lambda", "closure"):
+                        return FALSE
+                    return ("cmp", "Is", t, NONE)
+                r = isnone(p[2])
+                return r if p[1] == "Is" else mk_not(r)
+            nn = ("ref", "tuple", "drawn", "fstr", "bound", "func", "class", "lambda", "closure")
             if p[1] in ("Is", "IsNot") and ((is_const(p[3], None) and p[2][0] in nn) or (is_const(p[2], None) and p[3][0] in nn)):
                 return const(p[1] == "IsNot")
             if p[1] in ("In", "NotIn") and is_const(p[2]):
@@ -452,6 +564,11 @@ class Interp:
                 if is_const(p[3]) and isinstance(p[3][1], str) and isinstance(p[2][1], str):
                     r = p[2][1] in p[3][1]
                     return const(r if p[1] == "In" else not r)
+            if p[1] in ("In", "NotIn") and not is_const(p[2]):
+                o = self.obj(p[3])
+                if isinstance(o, HDict) and o.origin[2] == 0 and o.entries and all(e[0] != "**" and is_const(e[0]) for e in o.entries):
+                    r = ("bool", "or", tuple(("cmp", "Eq", p[2], e[0]) for e in o.entries)) if len(o.entries) > 1 else ("cmp", "Eq", p[2], o.entries[0][0])
+                    return r if p[1] == "In" else mk_not(r)
             if p[1] == "IsNot":
                 return mk_not(("cmp", "Is", p[2], p[3]))
             if p[1] == "NotIn":
@@ -529,6 +646,11 @@ class Interp:
             for e in reversed(o.entries):
                 if e[0] != "**" and e[0] == key:
                     return e[1]
+        if isinstance(o, HDict) and not is_const(key) and o.origin[2] == 0 and o.entries and all(e[0] != "**" and is_const(e[0]) for e in o.entries):
+            out = ("keyerror", base, key)
+            for e in reversed(o.entries):
+                out = mk_cond(("cmp", "Eq", key, e[0]), e[1], out)
+            return out
         if base[0] == "tuple" and is_const(key) and isinstance(key[1], int) and -len(base[1]) <= key[1] < len(base[1]):
             return base[1][key[1]]
         return ("item", base, key)
@@ -673,6 +795,11 @@ class Interp:
             return self.call_function(st, fi, args, kwargs, n, tree)
         if k == "class":
             return self.instantiate(st, self.facts.cls(f[1]), args, kwargs, n, tree)
+        if k == "closure":
+            fi, cenv = self.closures[f[1]]
+            return self.call_function(st, fi, args, kwargs, n, tree, closure_env=cenv)
+        if k == "propobj":
+            return ("opaque", "property object called")
         if k == "builtin":
             return self.call_builtin(st, f[1], args, kwargs, n, tree)
         if k == "extname":
@@ -694,11 +821,18 @@ class Interp:
                 if name in ("pop", "popleft", "popitem", "setdefault"):
                     return ("call", "." + name, (recv,) + tuple(args), ())
                 return NONE
-            if name == "get" and isinstance(o, HDict) and args and is_const(args[0]) and all(e[0] != "**" and is_const(e[0]) for e in o.entries):
+            if name == "get" and isinstance(o, HDict) and args and all(e[0] != "**" and is_const(e[0]) for e in o.entries) \
+                    and not self._dict_mutated(recv, tree):
+                dflt = args[1] if len(args) > 1 else NONE
+                if is_const(args[0]):
+                    for e in reversed(o.entries):
+                        if e[0] == args[0]:
+                            return e[1]
+                    return dflt
+                out = dflt
                 for e in reversed(o.entries):
-                    if e[0] == args[0]:
-                        return e[1]
-                return args[1] if len(args) > 1 else NONE
+                    out = mk_cond(("cmp", "Eq", args[0], e[0]), e[1], out)
+                return out
             if name == "copy" and not args:
                 return self.new_list([("s", recv)], n) if not isinstance(o, HDict) else self.new_dict([("**", recv)], n, tree)
             if name == "format":
@@ -728,6 +862,10 @@ class Interp:
         if name == "cast" and len(args) == 2:
             self._note_cast(n, args[1])
             return args[1]
+        if name == "property" and len(args) >= 1:
+            return ("propobj", args[0])
+        if name == "getattr" and len(args) in (2, 3) and is_const(args[1]) and isinstance(args[1][1], str):
+            return self.get_attr(st, args[0], args[1][1], n, tree)
         if name == "deque" and not kwargs:
             return self.new_list([("s", a) for a in args], n, tree)
         if name in ("print",):
@@ -739,6 +877,22 @@ class Interp:
         if name == "next":
             tree.append(("extcall", "next", tuple(args), line))
         return ("call", name, tuple(args), tuple(sorted(kwargs.items())))
+
+    def _dict_mutated(self, ref, tree) -> bool:
+        # class/module level tables are never written by the package (checked by C15.shared); local dicts: look at the tree so far
+        o = self.obj(ref)
+        if o is not None and o.origin[2] == 0:
+            return False
+        def walk(t):
+            for n in t:
+                if n[0] in ("setitem", "mutate") and n[1] == ref:
+                    return True
+                if n[0] == "if" and (walk(n[2]) or walk(n[3])):
+                    return True
+                if n[0] in ("loop", "call") and walk(n[2]):
+                    return True
+            return False
+        return walk(tree)
 
     def _note_cast(self, n, term) -> None:
         if isinstance(n, ast.Call) and n.args and isinstance(term, tuple) and term[0] not in ("const", "ref"):
@@ -767,7 +921,7 @@ class Interp:
         from .astutil import walk_no_nested_defs
         return any(isinstance(x, (ast.Yield, ast.YieldFrom)) for x in walk_no_nested_defs(fi.node))
 
-    def call_function(self, st: State, fi: FuncInfo, args, kwargs, n, tree):
+    def call_function(self, st: State, fi: FuncInfo, args, kwargs, n, tree, closure_env=None):
         q = fi.qualname
         line = getattr(n, "lineno", None)
         if self.stack and self.stack[-1].fi is not None:
@@ -783,7 +937,7 @@ class Interp:
             return shape(st, args, n, tree)
         a = fi.node.args
         params = a.posonlyargs + a.args
-        callee = State(ext=st.ext)
+        callee = State(env=closure_env, ext=st.ext)
         # defaults
         defaults = [None] * (len(params) - len(a.defaults)) + list(a.defaults)
         pos = list(args)
@@ -974,6 +1128,9 @@ class Interp:
         return Outcome(live=st)
 
     def st_Pass(self, s, st, tree):
+        u = getattr(s, "_unroll", None)
+        if u is not None:
+            return self._unrolled(u[0], st, tree, u[1], u[2])
         return Outcome(live=st)
 
     def st_Import(self, s, st, tree):
@@ -1191,8 +1348,44 @@ class Interp:
             return Outcome(o2.live, self._merge_exit(ret, o2.ret), o2.brk, o2.cont)
         return Outcome(live=after, ret=ret)
 
+    def _unroll_elems(self, it):
+        """Elements of a small, statically known sequence (tuple display / list display / class- or module-level table)."""
+        if it[0] == "tuple":
+            return list(it[1])
+        o = self.obj(it)
+        if isinstance(o, HList) and o.segs and all(sg[0] == "e" for sg in o.segs):
+            return [sg[1] for sg in o.segs]
+        if it[0] == "call" and it[1] == ".items" and len(it[2]) == 1:
+            d = self.obj(it[2][0])
+            if isinstance(d, HDict) and d.entries and all(e[0] != "**" and is_const(e[0]) for e in d.entries):
+                return [("tuple", (e[0], e[1])) for e in d.entries]
+        return None
+
     def st_For(self, s, st, tree):
+        # a loop over a small constant table is unrolled (first-match scans over dispatch tables, opener lists ...)
+        has_continue = any(isinstance(n, ast.Continue) for b in s.body for n in ast.walk(b))
+        if not has_continue and not s.orelse:
+            probe: list = []
+            it = self.ev(st.fork(), s.iter, probe)
+            elems = self._unroll_elems(it) if not probe or all(p[0] in ("alloc", "mcall") for p in probe) else None
+            if elems is not None and 0 < len(elems) <= 16 and not any(n[0] == "mutate" and n[1] == it for n in tree):
+                self.ev(st, s.iter, tree)
+                return self._unrolled(s, st, tree, elems, 0)
         return self._loop_common(s, st, tree, "for")
+
+    def _unrolled(self, s, st, tree, elems, i) -> Outcome:
+        """Iterations i.. of an unrolled loop; later iterations are nested in the branch of the current one that stays live."""
+        if i >= len(elems):
+            return Outcome(live=st)
+        self.bind_target(st, s.target, elems[i])
+        marker = ast.Pass()
+        marker._unroll = (s, elems, i + 1)
+        o = self.exec_block(list(s.body) + [marker], st, tree)
+        # a break ends the loop; the code after the loop runs on the merged state
+        if o.brk is not None:
+            live = self._merge_exit(o.live, o.brk)
+            return Outcome(live=live, ret=o.ret, cont=o.cont)
+        return o
 
     def st_While(self, s, st, tree):
         return self._loop_common(s, st, tree, "while")
@@ -1243,10 +1436,32 @@ class Interp:
         return res
 
     def st_FunctionDef(self, s, st, tree):
+        act = self.stack[-1]
+        if act.fi is not None:
+            cid = len(self.closures) + 1
+            self.closures[cid] = (FuncInfo(act.fi.module, None, s), dict(st.env))
+            st.env[s.name] = ("closure", cid)
+        else:
+            st.env[s.name] = ("localfunc", s.name, s.lineno)
+        return Outcome(live=st)
+
+    def st_ClassDef(self, s, st, tree):
         st.env[s.name] = ("localfunc", s.name, s.lineno)
         return Outcome(live=st)
 
-    st_ClassDef = st_FunctionDef
+    def eval_attr(self, cls: ClassInfo, name: str):
+        """Normal form of ``<instance of cls>.name`` (method -> bound, property / property object -> its value)."""
+        selft = ("param", "self")
+        self.types[selft] = cls
+        init = cls.find_method("__init__") or next(iter(cls.methods.values()), None)
+        fi = init if init is not None else FuncInfo(cls.module, cls, ast.parse("def _(): pass").body[0])
+        self.stack.append(Activation(fi, 0))
+        try:
+            tree: list = []
+            v = self.get_attr(State(), selft, name, None, tree)
+        finally:
+            self.stack.pop()
+        return v, tree
 
     # -- entry --------------------------------------------------------------------------
     def run(self, qualname: str, args: dict | None = None, ext: dict | None = None):
